@@ -128,6 +128,52 @@ def check_regex_key(ctx, out, body, rule, labs, scope_blocks=None):
     return n
 
 
+def check_cmp_results(ctx, out, rule, vb=None):
+    """Every ordering returned by the sort comparator is produced by the format's own comparison
+    (str Ord::cmp for lexicographic, f64::total_cmp of the parsed numbers for numeric)."""
+    vb = vb or ctx.validate_body(NAME)
+    n = 0
+    if vb is None:
+        return 0
+    cmpf, cbi, ct = comparator_fn(ctx, vb)
+    if cmpf is None:
+        out.viol(rule, "%s|no-comparator" % rule, ctx.where(vb), "comparator function not found")
+        return 0
+    ccfg = cfg_of(cmpf)
+    arms = {}
+    enum = None
+    for bi, j, s in cmpf.assigns():
+        if s["rv"]["k"] == "discr" and (s["rv"].get("adt") or "").startswith("blockwatch::"):
+            enum = s["rv"]["adt"]
+            dl = s["lhs"]["l"]
+            for bj, t in cmpf.terms():
+                if t["k"] == "switch" and (util.op_place(t["op"]) or {}).get("l") == dl:
+                    for v, tg in util.switch_arms(cmpf, bj).items():
+                        if v != "otherwise":
+                            arms[v] = tg
+    vnames = {v["vi"]: v["name"] for v in ctx.facts.adts.get(enum, {"variants": []})["variants"]} if enum else {}
+    for bi, j, s in cmpf.assigns():
+        rv = s["rv"]
+        if s["lhs"]["l"] == 0 and rv["k"] == "agg" and rv.get("variant") == "Ok":
+            arm = None
+            for v, tg in arms.items():
+                if ccfg.dominates(tg, bi):
+                    arm = vnames.get(v)
+            labs = ctx.prov.read_operand(cmpf, rv["ops"][0])
+            cmps = sorted({l[1] for l in labs if l[0] == "call" and re.search(r"::(cmp|total_cmp|partial_cmp|then|then_with|reverse|max|min)$|PartialOrd|::(lt|le|gt|ge)$", l[1])})
+            if arm is None:
+                out.viol(rule, "%s|unconditional-result" % rule, ctx.where(cmpf, s["span"]),
+                         "the comparator returns a result (derived from [%s]) on a path that does not depend on the sort format: this ordering is not produced by the format's comparison (and skips e.g. numeric parsing, so non-numeric keys under numeric sort are not rejected)" % util.origins_text(labs, 4))
+                continue
+            want = r"impl std::cmp::Ord for str>::cmp$|impl std::cmp::Ord for \[.*\]>::cmp$" if arm == "Lexicographic" else r"f64>::total_cmp$"
+            if len(cmps) == 1 and re.search(want, cmps[0]):
+                n += 1
+            else:
+                out.viol(rule, "%s|%s|comparison" % (rule, arm), ctx.where(cmpf, s["span"]),
+                         "under the %s format the ordering derives from %s; expected exactly %s" % (arm, cmps or util.origins_text(labs, 4), "str's Ord::cmp (code-point order)" if arm == "Lexicographic" else "f64::total_cmp of the two parsed numbers"))
+    return n
+
+
 def run(ctx, out, tier):
     vb = ctx.validate_body(NAME)
     if vb is None:
